@@ -20,7 +20,11 @@ RotFrameOK == (Rec.op = "rot" /\ Has("outs")) =>
     /\ Has("csok") => Rec.csok = TRUE
     /\ Has("r0") => Rec.r1 = Rec.r0
     /\ Has("g1") => Rec.g1 = Rec.g
-RotMapOK == (Rec.op = "rotmap" /\ Has("ret")) => DecM(Rec.ret) = RotMap(Dec(Rec.g))
+\* (ret2, ret4: the same request again after the caller changed, in place, the table it was given / the table of a
+\* compiled rotation gate; ret3: the compiled gate's table)
+RotMapOK == (Rec.op = "rotmap" /\ Has("ret")) =>
+    /\ DecM(Rec.ret) = RotMap(Dec(Rec.g))
+    /\ \A f \in {"ret2", "ret3", "ret4"} : Has(f) => DecM(Rec[f]) = RotMap(Dec(Rec.g))
 \* a sequence of rotations followed by the inverse sequence (rotations by -G in reverse order)
 RECURSIVE RotSeq(_, _, _)
 RotSeq(P, gens, j) == IF j > Len(gens) THEN P ELSE RotSeq(Rot(Dec(gens[j]), P), gens, j + 1)
